@@ -15,21 +15,21 @@ import (
 )
 
 type BCase struct {
-	Prop string `json:"prop"`
-	Kind string `json:"kind"` // arrbatch, bytes, mapbatch, copy
-	Cfg  Config `json:"cfg"`
+	Prop string   `json:"prop"`
+	Kind string   `json:"kind"` // arrbatch, bytes, mapbatch, copy
+	Cfg  Config   `json:"cfg"`
 	Root RootSpec `json:"root"`
-	N    int    `json:"n,omitempty"`
-	Prog string `json:"prog,omitempty"` // const, alt, ramp, hugeend, fill
-	Z    int    `json:"z,omitempty"`
-	Q    int    `json:"q,omitempty"` // fill: number of full slabs
-	R    int    `json:"r,omitempty"` // fill: remainder
-	Seed uint64 `json:"seed,omitempty"`
-	Nest int    `json:"nest,omitempty"` // every Nest-th element is a small nested array (0 = none)
-	Est  uint32 `json:"est,omitempty"`  // bytes: estimated element size argument
-	Bad  string `json:"bad,omitempty"`  // mapbatch: "", unsorted, dup ; bytes: "", wrongtype
-	Src  []Op   `json:"src,omitempty"`  // mapbatch / copy: ops building the source
-	Post []Op   `json:"post,omitempty"` // ops applied to source and result afterwards (independence)
+	N    int      `json:"n,omitempty"`
+	Prog string   `json:"prog,omitempty"` // const, alt, ramp, hugeend, fill
+	Z    int      `json:"z,omitempty"`
+	Q    int      `json:"q,omitempty"` // fill: number of full slabs
+	R    int      `json:"r,omitempty"` // fill: remainder
+	Seed uint64   `json:"seed,omitempty"`
+	Nest int      `json:"nest,omitempty"` // every Nest-th element is a small nested array (0 = none)
+	Est  uint32   `json:"est,omitempty"`  // bytes: estimated element size argument
+	Bad  string   `json:"bad,omitempty"`  // mapbatch: "", unsorted, dup ; bytes: "", wrongtype
+	Src  []Op     `json:"src,omitempty"`  // mapbatch / copy: ops building the source
+	Post []Op     `json:"post,omitempty"` // ops applied to source and result afterwards (independence)
 }
 
 var allOracles = Oracles{CmpEvery: 1, CheckHandles: true, Tree: true, Sizes: true, Health: true, Inline: true, Verify: true, RoundTrip: true}
@@ -627,11 +627,11 @@ func init() {
 			"mset": 14, "mrem": 5, "msetN": 6, "mremN": 2, "styp": 1, "reopen": 1, "commit": 1, "mgrow": 1},
 		Roots:   [][]RootSpec{{{K: "map", Addr: 1, TI: 2}}},
 		MaxBulk: 60, Keys: []int{12, 64, 300},
-		ValW: map[string]int{"u": 10, "s0": 4, "s1": 4, "s2": 2, "s4": 1, "s5": 2, "s6": 1, "some": 3, "arr": 3, "map": 2},
+		ValW:     map[string]int{"u": 10, "s0": 4, "s1": 4, "s2": 2, "s4": 1, "s5": 2, "s6": 1, "some": 3, "arr": 3, "map": 2},
 		MaxDepth: 2, MaxElems: 4, AcqW: [3]int{8, 1, 1},
 	}
 	postGen := &GenCfg{
-		W: map[string]int{"app": 6, "set": 4, "rem": 6, "appN": 2, "remN": 2, "mset": 8, "mrem": 6, "msetN": 2, "mremN": 2, "pop": 1, "mpop": 1, "commit": 1, "reopen": 1},
+		W:       map[string]int{"app": 6, "set": 4, "rem": 6, "appN": 2, "remN": 2, "mset": 8, "mrem": 6, "msetN": 2, "mremN": 2, "pop": 1, "mpop": 1, "commit": 1, "reopen": 1},
 		MaxBulk: 30, ValW: map[string]int{"u": 6, "s1": 3, "s5": 1, "arr": 1}, MaxDepth: 1, MaxElems: 3, AcqW: [3]int{8, 1, 1},
 	}
 	register(&PropDef{
@@ -720,4 +720,3 @@ func init() {
 		Slab: func(c any) uint32 { return c.(*BCase).Cfg.Slab },
 	})
 }
-
